@@ -103,7 +103,7 @@ def corrupt(cg, c, cors):
         elif kind == "bad_type":
             n = pick(lambda n: True)
             if n:
-                g.nodes[n]["type"] = rng.choice(["mux", "AND", "", "output"])
+                g.nodes[n]["type"] = rng.choice(["mux", "AND", "", "output", ["and"], {"type": "and"}, None, 7])  # also values that cannot be hashed
                 applied.append(kind)
         elif kind in ("fanin_on_source", "fanin_on_x", "fanin_on_bbout"):
             want = {"fanin_on_source": ("input", "0", "1"), "fanin_on_x": ("x",), "fanin_on_bbout": ("bb_output",)}[kind]
